@@ -1,0 +1,24 @@
+//! Verification hooks, compiled only with `--cfg rigetti_quil_rs_verif`.
+//!
+//! Thin public wrappers around crate-private functions so that an external
+//! correspondence harness can drive them directly. Add-only; nothing here is
+//! reachable when the cfg flag is off.
+
+pub use crate::parser::{Command, DataType, KeywordToken, Modifier, Token};
+
+/// Lex a complete string into tokens (locations dropped).
+pub fn lex_tokens(input: &str) -> Result<Vec<Token>, String> {
+    crate::parser::lex(nom_locate::LocatedSpan::new(input))
+        .map(|tokens| tokens.into_iter().map(|t| t.into_token()).collect())
+        .map_err(|e| e.to_string())
+}
+
+/// The printer's string quoting (`QuotedString`'s `Display`).
+pub fn quoted_string(s: &str) -> String {
+    crate::instruction::QuotedString(s).to_string()
+}
+
+/// The lexer's quoted-string parser: `Some((parsed, remaining))` or `None` on a lex error.
+pub fn unescaped_quoted_string(input: &str) -> Option<(String, String)> {
+    crate::parser::verif_unescaped_quoted_string(input)
+}
